@@ -204,6 +204,74 @@ pub fn info_consistent(tz: &jiff::tz::TimeZone) -> Result<usize, String> {
     Ok(n)
 }
 
+/// A third recording-free check, at the places where the first two do not
+/// look: the very second of each transition. For every transition `t` the
+/// zone reports from 1990 on (up to 80 of them), instants with a fractional
+/// second around `t` must see it exactly like the whole-second instants do:
+/// `preceding` of anything in `(t, t + 1 s]` starts with `t`, `preceding(t)`
+/// starts before it, `following` of anything in `[t - 1 s, t)` starts with
+/// `t`, `following(t)` starts after it, and from `t` on -- including
+/// `t + 0.5 s` -- the offset is the one the transition switched to.
+pub fn boundary_consistent(tz: &jiff::tz::TimeZone) -> Result<usize, String> {
+    use jiff::{SignedDuration, Timestamp};
+    let half = SignedDuration::from_millis(500);
+    let one = SignedDuration::from_secs(1);
+    let mut at = Timestamp::from_second(631_152_000).unwrap();
+    let mut n = 0;
+    for _ in 0..80 {
+        let first = tz.following(at).next();
+        let Some(tr) = first else { break };
+        let t = tr.timestamp();
+        if t <= at {
+            return Err(format!("following({at}) starts with a transition at {t}, which is not after it"));
+        }
+        let first_of = |ts: Timestamp, back: bool| -> Option<Timestamp> {
+            if back { tz.preceding(ts).next().map(|x| x.timestamp()) } else { tz.following(ts).next().map(|x| x.timestamp()) }
+        };
+        let (Ok(t_half), Ok(t_one), Ok(t_mhalf), Ok(t_mone)) =
+            (t.checked_add(half), t.checked_add(one), t.checked_sub(half), t.checked_sub(one))
+        else {
+            break;
+        };
+        for (what, ts, back, want_t) in [
+            ("preceding(t + 0.5 s)", t_half, true, true),
+            ("preceding(t + 1 s)", t_one, true, true),
+            ("following(t - 0.5 s)", t_mhalf, false, true),
+            ("following(t - 1 s)", t_mone, false, true),
+        ] {
+            let got = first_of(ts, back);
+            if (got == Some(t)) != want_t {
+                return Err(format!("transition at t = {t}: {what} starts with {got:?}"));
+            }
+        }
+        if let Some(p) = first_of(t, true) {
+            if p >= t {
+                return Err(format!("transition at t = {t}: preceding(t) starts with {p}"));
+            }
+        }
+        if let Some(f) = first_of(t, false) {
+            if f <= t {
+                return Err(format!("transition at t = {t}: following(t) starts with {f}"));
+            }
+        }
+        for ts in [t, t_half, t_one] {
+            let off = tz.to_offset(ts);
+            let info = tz.to_offset_info(ts);
+            if off != tr.offset() || info.offset() != tr.offset() || info.abbreviation() != tr.abbreviation() {
+                return Err(format!(
+                    "transition at t = {t} switched to ({}, {:?}) but at {ts} the zone says ({off}, {:?})",
+                    tr.offset(),
+                    tr.abbreviation(),
+                    info.abbreviation()
+                ));
+            }
+        }
+        n += 1;
+        at = t;
+    }
+    Ok(n)
+}
+
 /// Compares the behaviour digest of a fresh handle of every pooled zone
 /// with the recorded one, and static zones with their heap twins.
 pub fn check_digests() -> Result<usize, String> {
@@ -217,6 +285,9 @@ pub fn check_digests() -> Result<usize, String> {
             return Err(format!("[answer_consistency] a fresh {spec:?} handle is inconsistent with itself: {e}"));
         }
         if let Err(e) = info_consistent(&tz) {
+            return Err(format!("[answer_consistency] a fresh {spec:?} handle is inconsistent with itself: {e}"));
+        }
+        if let Err(e) = boundary_consistent(&tz) {
             return Err(format!("[answer_consistency] a fresh {spec:?} handle is inconsistent with itself: {e}"));
         }
         let d = format!("{:016x}", digest(&tz));
